@@ -9,7 +9,9 @@
 #include <asmjit/core.h>
 #include <asmjit/x86.h>
 #include <asmjit/a64.h>
+#include <asmjit/core/rastack_p.h>
 #include "vh.h"
+#include <map>
 
 using namespace asmjit;
 
@@ -102,8 +104,195 @@ static std::string emit_list(const Environment& env, const FuncFrame& frame, boo
   }
 }
 
+static std::string finish(uint64_t arch_i, const Environment& env, FuncFrame& frame, const std::string& extra) {
+  Error e = frame.finalize();
+  if (e != Error::kOk) return "err " + err_name(e);
+
+  char buf[128];
+  std::string out = "ok";
+  auto add = [&](uint64_t v) { snprintf(buf, sizeof(buf), " %llu", (unsigned long long)v); out += buf; };
+  add(arch_i);
+  add(uint32_t(frame.attributes()));
+  add(frame._sp_reg_id); add(frame.sa_reg_id());
+  add(frame.red_zone_size()); add(frame.spill_zone_size()); add(frame.natural_stack_alignment()); add(frame.min_dynamic_alignment());
+  add(frame.call_stack_alignment()); add(frame.local_stack_alignment()); add(frame.final_stack_alignment());
+  add(frame.callee_stack_cleanup());
+  add(frame.call_stack_size()); add(frame.local_stack_size()); add(frame.final_stack_size()); add(frame.local_stack_offset());
+  add(frame.da_offset()); add(frame.sa_offset_from_sp()); add(frame.sa_offset_from_sa()); add(frame.stack_adjustment());
+  add(frame.push_pop_save_size()); add(frame.extra_reg_save_size()); add(frame.push_pop_save_offset()); add(frame.extra_reg_save_offset());
+  for (int i = 0; i < 4; i++) add(frame.dirty_regs(RegGroup(i)));
+  for (int i = 0; i < 4; i++) add(frame.preserved_regs(RegGroup(i)));
+  for (int i = 0; i < 4; i++) add(frame.save_restore_reg_size(RegGroup(i)));
+  for (int i = 0; i < 4; i++) add(frame.save_restore_alignment(RegGroup(i)));
+
+  out += " | " + emit_list(env, frame, true);
+  out += " | " + emit_list(env, frame, false);
+  out += extra;
+  return out;
+}
+
+static std::vector<std::string> split(const std::string& s, char c) {
+  std::vector<std::string> parts;
+  size_t st = 0;
+  for (;;) {
+    size_t p = s.find(c, st);
+    parts.push_back(s.substr(st, p == std::string::npos ? p : p - st));
+    if (p == std::string::npos) break;
+    st = p + 1;
+  }
+  return parts;
+}
+
+// The real FuncArgsAssignment::update_func_frame on a signature / assignment derived from (n, seed).
+// Returns the observed effect on the frame: " uff <d0> <d1> <d2> <d3> <sa|-> <Error> <other-fields-unchanged 0|1>".
+static std::string real_uff(const Environment& env, CallConvId cc, FuncFrame& frame, uint64_t n, uint64_t seed) {
+  FuncSignature sig;
+  sig.set_call_conv_id(cc);
+  sig.set_ret(TypeId::kVoid);
+  static const TypeId kinds[4] = { TypeId::kIntPtr, TypeId::kInt32, TypeId::kFloat64, TypeId::kFloat32 };
+  for (uint64_t i = 0; i < n && i < 12; i++) sig.add_arg(kinds[(seed >> (2 * i)) & 3]);
+  FuncDetail fd;
+  Error e = fd.init(sig, env);
+  if (e != Error::kOk) return std::string(" uff 0 0 0 0 - ") + err_name(e) + " 1";
+  FuncArgsAssignment args(&fd);
+  static const uint32_t gp_x86[] = { 0, 1, 2, 3, 6, 7 };
+  static const uint32_t gp_x64[] = { 0, 1, 2, 3, 6, 7, 8, 9, 10, 11, 12, 13, 14, 15 };
+  uint32_t gi = uint32_t(seed >> 40), vi = uint32_t(seed >> 44);
+  for (uint64_t i = 0; i < n && i < 12; i++) {
+    if ((seed >> (24 + i)) & 1) continue;            // stays where the convention passes it
+    bool is_fp = ((seed >> (2 * i)) & 2) != 0;
+    if (is_fp) {
+      uint32_t id = (vi++) % 8;
+      if (env.arch() == Arch::kAArch64) args.assign_reg(size_t(i), RegType::kVec128, id);
+      else args.assign_reg(size_t(i), RegType::kVec128, id);
+    }
+    else {
+      uint32_t id;
+      if (env.arch() == Arch::kX86) id = gp_x86[(gi++) % 6];
+      else if (env.arch() == Arch::kX64) id = gp_x64[(gi++) % 14];
+      else id = (gi++) % 16;
+      RegType rt = env.arch() == Arch::kX86 ? RegType::kGp32 : RegType::kGp64;
+      args.assign_reg(size_t(i), rt, id);
+    }
+  }
+  if ((seed >> 39) & 1) {
+    uint32_t id = env.arch() == Arch::kX86 ? gp_x86[(seed >> 36) % 6] : uint32_t((seed >> 36) & 7) ;
+    args.set_sa_reg_id(id);
+  }
+  FuncFrame before = frame;
+  e = args.update_func_frame(frame);
+  char buf[160];
+  bool same = true;
+  // everything but dirty masks and the SA register must be untouched
+  FuncFrame probe = frame;
+  for (int i = 0; i < 4; i++) probe._dirty_regs[RegGroup(i)] = before._dirty_regs[RegGroup(i)];
+  probe._sa_reg_id = before._sa_reg_id;
+  same = memcmp(&probe, &before, sizeof(FuncFrame)) == 0;
+  std::string sa = "-";
+  // the SA register after the call (set_sa_reg_id with the current value is a no-op, so reporting the final value is exact)
+  if (frame.sa_reg_id() != Reg::kIdBad) { snprintf(buf, sizeof(buf), "%u", frame.sa_reg_id()); sa = buf; }
+  snprintf(buf, sizeof(buf), " uff %x %x %x %x %s %s %d",
+           frame.dirty_regs(RegGroup(0)) & ~before.dirty_regs(RegGroup(0)), frame.dirty_regs(RegGroup(1)) & ~before.dirty_regs(RegGroup(1)),
+           frame.dirty_regs(RegGroup(2)) & ~before.dirty_regs(RegGroup(2)), frame.dirty_regs(RegGroup(3)) & ~before.dirty_regs(RegGroup(3)),
+           sa.c_str(), e == Error::kOk ? "Ok" : err_name(e).c_str(), same ? 1 : 0);
+  // dirty bits are only ever added
+  for (int i = 0; i < 4; i++) if (before.dirty_regs(RegGroup(i)) & ~frame.dirty_regs(RegGroup(i))) return std::string(buf) + " dirty-bits-removed";
+  return buf;
+}
+
+// seq <arch> <cc> <win> <argStack> <u0..u3 hex> <pm: - | p0,p1,p2,p3 hex> <op,op,...>
+static std::string step_seq(const std::vector<std::string>& w) {
+  if (w.size() != 11) return "bad-op";
+  uint64_t arch_i, cc_i, win, arg_stack, used[4];
+  if (!vh::parse_u64(w[1], arch_i) || !vh::parse_u64(w[2], cc_i) || !vh::parse_u64(w[3], win) || !vh::parse_u64(w[4], arg_stack)) return "bad-op";
+  for (int i = 0; i < 4; i++) if (!vh::parse_hex(w[5 + i], used[i])) return "bad-op";
+  if (arch_i > 2) return "bad-op";
+  Arch arch = arch_i == 0 ? Arch::kX86 : arch_i == 1 ? Arch::kX64 : Arch::kAArch64;
+  Environment env(arch, SubArch::kUnknown, Vendor::kUnknown, win ? Platform::kWindows : Platform::kLinux);
+  FuncDetail func;
+  Error e = func._call_conv.init(CallConvId(uint8_t(cc_i)), env);
+  if (e != Error::kOk) return "err " + err_name(e);
+  if (w[9] != "-") {
+    std::vector<std::string> pm = split(w[9], ',');
+    if (pm.size() != 4) return "bad-op";
+    for (int i = 0; i < 4; i++) {
+      uint64_t m;
+      if (!vh::parse_hex(pm[size_t(i)], m)) return "bad-op";
+      func._call_conv.set_preserved_regs(RegGroup(i), RegMask(m));
+    }
+  }
+  func._arg_stack_size = uint32_t(arg_stack);
+  for (int i = 0; i < 4; i++) func._used_regs[size_t(i)] = RegMask(used[i]);
+  FuncFrame frame;
+  e = frame.init(func);
+  if (e != Error::kOk) return "err " + err_name(e);
+  std::string extra;
+  if (w[10] != "-") {
+    for (const std::string& op : split(w[10], ',')) {
+      std::vector<std::string> a = split(op, ':');
+      uint64_t v = 0, v2 = 0;
+      const std::string& k = a[0];
+      auto num = [&](size_t i, uint64_t& out) { return a.size() > i && vh::parse_u64(a[i], out); };
+      auto hex = [&](size_t i, uint64_t& out) { return a.size() > i && vh::parse_hex(a[i], out); };
+      if (k == "sls" && num(1, v)) frame.set_local_stack_size(uint32_t(v));
+      else if (k == "sla" && num(1, v)) frame.set_local_stack_alignment(uint32_t(v));
+      else if (k == "scs" && num(1, v)) frame.set_call_stack_size(uint32_t(v));
+      else if (k == "sca" && num(1, v)) frame.set_call_stack_alignment(uint32_t(v));
+      else if (k == "uls" && num(1, v)) frame.update_local_stack_size(uint32_t(v));
+      else if (k == "ula" && num(1, v)) frame.update_local_stack_alignment(uint32_t(v));
+      else if (k == "ucs" && num(1, v)) frame.update_call_stack_size(uint32_t(v));
+      else if (k == "uca" && num(1, v)) frame.update_call_stack_alignment(uint32_t(v));
+      else if (k == "aat" && hex(1, v)) frame.add_attributes(FuncAttributes(uint32_t(v)));
+      else if (k == "cat" && hex(1, v)) frame.clear_attributes(FuncAttributes(uint32_t(v)));
+      else if (k == "sd" && num(1, v) && hex(2, v2)) { if (v < 4) frame.set_dirty_regs(RegGroup(v), RegMask(v2)); }
+      else if (k == "ad" && num(1, v) && hex(2, v2)) { if (v < 4) frame.add_dirty_regs(RegGroup(v), RegMask(v2)); }
+      else if (k == "sad") frame.set_all_dirty();
+      else if (k == "ssa" && num(1, v)) frame.set_sa_reg_id(uint32_t(v));
+      else if (k == "rsa") frame.reset_sa_reg_id();
+      else if (k == "rrz") frame.reset_red_zone();
+      else if (k == "uff" && num(1, v) && hex(2, v2)) extra += real_uff(env, CallConvId(uint8_t(cc_i)), frame, v, v2);
+      else return "bad-op";
+    }
+  }
+  return finish(arch_i, env, frame, extra);
+}
+
+// ras <size:align:flags:use,...>  ->  ok <alignment> <stack_size> <id:weight:offset ...>   (slots in the order after the sort)
+static std::string step_ras(const std::vector<std::string>& w) {
+  if (w.size() != 2) return "bad-op";
+  Arena arena(4096);
+  RAStackAllocator alloc;
+  alloc.reset(&arena);
+  std::map<RAStackSlot*, size_t> ids;
+  if (w[1] != "-") {
+    for (const std::string& t : split(w[1], ',')) {
+      std::vector<std::string> a = split(t, ':');
+      uint64_t size, align, flags, use;
+      if (a.size() != 4 || !vh::parse_u64(a[0], size) || !vh::parse_u64(a[1], align) || !vh::parse_u64(a[2], flags) || !vh::parse_u64(a[3], use))
+        return "bad-op";
+      RAStackSlot* slot = alloc.new_slot(0, uint32_t(size), uint32_t(align), uint32_t(flags));
+      if (!slot) return "err OutOfMemory";
+      slot->add_use_count(uint32_t(use));
+      size_t id = ids.size();
+      ids[slot] = id;
+    }
+  }
+  Error e = alloc.calculate_stack_frame();
+  if (e != Error::kOk) return "err " + err_name(e);
+  char buf[96];
+  snprintf(buf, sizeof(buf), "ok %u %u", alloc.alignment(), alloc.stack_size());
+  std::string out = buf;
+  for (RAStackSlot* slot : alloc.slots()) {
+    snprintf(buf, sizeof(buf), " %zu:%u:%d", ids[slot], slot->weight(), slot->offset());
+    out += buf;
+  }
+  return out;
+}
+
 static std::string step(const std::string& line) {
   std::vector<std::string> w = vh::words(line);
+  if (!w.empty() && w[0] == "seq") return step_seq(w);
+  if (!w.empty() && w[0] == "ras") return step_ras(w);
   if (w.size() != 17 || w[0] != "frame") return "bad-op";
   uint64_t arch_i, cc_i, win, arg_stack, attrs, used[4], upd, lsz, lal, csz, cal, sareg;
   if (!vh::parse_u64(w[1], arch_i) || !vh::parse_u64(w[2], cc_i) || !vh::parse_u64(w[3], win) || !vh::parse_u64(w[4], arg_stack) ||
@@ -115,17 +304,10 @@ static std::string step(const std::string& line) {
   bool has_ovr = w[10] != "-";
   uint64_t ovr[12] = {0};
   if (has_ovr) {
-    std::vector<std::string> parts;
-    size_t st = 0;
-    for (;;) {
-      size_t p = w[10].find(',', st);
-      parts.push_back(w[10].substr(st, p == std::string::npos ? p : p - st));
-      if (p == std::string::npos) break;
-      st = p + 1;
-    }
+    std::vector<std::string> parts = split(w[10], ',');
     if (parts.size() != 12) return "bad-op";
-    for (int i = 0; i < 4; i++) if (!vh::parse_hex(parts[i], ovr[i])) return "bad-op";
-    for (int i = 4; i < 12; i++) if (!vh::parse_u64(parts[i], ovr[i])) return "bad-op";
+    for (int i = 0; i < 4; i++) if (!vh::parse_hex(parts[size_t(i)], ovr[i])) return "bad-op";
+    for (int i = 4; i < 12; i++) if (!vh::parse_u64(parts[size_t(i)], ovr[i])) return "bad-op";
   }
 
   Arch arch = arch_i == 0 ? Arch::kX86 : arch_i == 1 ? Arch::kX64 : Arch::kAArch64;
@@ -165,29 +347,7 @@ static std::string step(const std::string& line) {
     frame.update_call_stack_alignment(uint32_t(cal / 2));
   }
   if (sareg != 255) frame.set_sa_reg_id(uint32_t(sareg));
-  e = frame.finalize();
-  if (e != Error::kOk) return "err " + err_name(e);
-
-  char buf[128];
-  std::string out = "ok";
-  auto add = [&](uint64_t v) { snprintf(buf, sizeof(buf), " %llu", (unsigned long long)v); out += buf; };
-  add(arch_i);
-  add(uint32_t(frame.attributes()));
-  add(frame._sp_reg_id); add(frame.sa_reg_id());
-  add(frame.red_zone_size()); add(frame.spill_zone_size()); add(frame.natural_stack_alignment()); add(frame.min_dynamic_alignment());
-  add(frame.call_stack_alignment()); add(frame.local_stack_alignment()); add(frame.final_stack_alignment());
-  add(frame.callee_stack_cleanup());
-  add(frame.call_stack_size()); add(frame.local_stack_size()); add(frame.final_stack_size()); add(frame.local_stack_offset());
-  add(frame.da_offset()); add(frame.sa_offset_from_sp()); add(frame.sa_offset_from_sa()); add(frame.stack_adjustment());
-  add(frame.push_pop_save_size()); add(frame.extra_reg_save_size()); add(frame.push_pop_save_offset()); add(frame.extra_reg_save_offset());
-  for (int i = 0; i < 4; i++) add(frame.dirty_regs(RegGroup(i)));
-  for (int i = 0; i < 4; i++) add(frame.preserved_regs(RegGroup(i)));
-  for (int i = 0; i < 4; i++) add(frame.save_restore_reg_size(RegGroup(i)));
-  for (int i = 0; i < 4; i++) add(frame.save_restore_alignment(RegGroup(i)));
-
-  out += " | " + emit_list(env, frame, true);
-  out += " | " + emit_list(env, frame, false);
-  return out;
+  return finish(arch_i, env, frame, "");
 }
 
 int main() { return vh::line_loop(step); }
